@@ -27,7 +27,10 @@ fn process_from(p: &Value) -> libcnb_data::launch::Process {
     if let Some(d) = p.get("default").and_then(Value::as_bool) {
         b.default(d);
     }
-    if let Some(wd) = p.get("wd") {
+    if let Some(h) = p.get("wd_hex").and_then(Value::as_str) {
+        // a working directory that is not valid UTF-8 (a legal path)
+        b.working_directory(WorkingDirectory::Directory(PathBuf::from(vpharness::os_from_hex(h))));
+    } else if let Some(wd) = p.get("wd") {
         if wd.is_null() {
             if jbool(p, "wd_explicit_app") {
                 b.working_directory(WorkingDirectory::App);
@@ -107,6 +110,12 @@ pub fn handle(req: &Value) -> Value {
                             let mut r = Require::new(c[1].as_str().unwrap());
                             if let Err(e) = r.metadata(toml_table_from_json(&c[2])) {
                                 return json!({"write_err": format!("require.metadata: {e}")});
+                            }
+                            // a second metadata() call replaces the first
+                            if c.len() > 3 && !c[3].is_null() {
+                                if let Err(e) = r.metadata(toml_table_from_json(&c[3])) {
+                                    return json!({"write_err": format!("require.metadata: {e}")});
+                                }
                             }
                             b.requires(r)
                         } else if c.len() > 3 {
